@@ -599,36 +599,69 @@ func ruleXZWriterFormat(c *Ctx, r *Report, prefix string) {
 	}
 	// index: all parts go through the CRC'd multi-writer, the CRC itself to the plain writer; record order
 	if fn := c.Func("", "writeIndex"); fn != nil {
-		var mwWrites, wWrites int
-		var sum *ssa.Call
-		okOrder := true
-		for _, b := range theCtx.GB(fn) {
-			for _, ins := range b.Instrs {
-				call, isC := ins.(*ssa.Call)
-				if !isC {
-					continue
-				}
-				if call.Call.IsInvoke() && call.Call.Method.Name() == "Sum32" {
-					sum = call
-				}
-				if call.Call.IsInvoke() && call.Call.Method.Name() == "Write" {
-					if _, isParam := call.Call.Value.(*ssa.Parameter); isParam {
-						wWrites++
-						if sum == nil {
-							okOrder = false
-						}
-					} else if mc, isMC := call.Call.Value.(*ssa.Call); isMC && stdCalleeName(mc) == "io.MultiWriter" {
-						mwWrites++
-						if sum != nil {
-							okOrder = false
-						}
+		// on every successful path: data writes go to the CRC'd multi-writer, then the CRC is
+		// taken, then exactly one write goes to the plain sink (the CRC); nothing else
+		spec := SeqSpec{Fn: fn, NoMerge: true}
+		spec.Event = func(w *Walker, p *PState, ins ssa.Instruction) string {
+			call, isC := ins.(*ssa.Call)
+			if !isC || !call.Call.IsInvoke() {
+				return ""
+			}
+			switch call.Call.Method.Name() {
+			case "Sum32":
+				return "sum"
+			case "Write":
+				switch rv := p.Resolve(call.Call.Value).(type) {
+				case *ssa.Parameter:
+					if rv == fn.Params[0] {
+						return "w"
+					}
+				case *ssa.Call:
+					if stdCalleeName(rv) == "io.MultiWriter" {
+						return "mw"
 					}
 				}
+				return "other"
+			}
+			return ""
+		}
+		paths, over := CollectPaths(c, spec)
+		okOrder, nOK, mwWrites, wWrites := !over, 0, 0, 0
+		for _, sp := range paths {
+			if sp.ErrNonNil && !sp.Has("sum") {
+				continue // an early error return
+			}
+			nOK++
+			l := sp.Labels()
+			is := sp.Index("sum")
+			if is < 0 || sp.Count("sum") != 1 {
+				okOrder = false
+				continue
+			}
+			for k, x := range l {
+				switch {
+				case x == "other":
+					okOrder = false
+				case x == "mw" && k > is, x == "w" && k < is:
+					okOrder = false
+				}
+			}
+			mwWrites, wWrites = 0, 0
+			for _, x := range l {
+				if x == "mw" {
+					mwWrites++
+				}
+				if x == "w" {
+					wWrites++
+				}
+			}
+			if mwWrites < 3 || wWrites != 1 {
+				okOrder = false
 			}
 		}
-		r.Check(mwWrites == 4 && wWrites == 1 && okOrder && sum != nil, rule, "index-crc:"+FnName(fn), c.Pos(fn.Pos()),
+		r.Check(okOrder && nOK > 0, rule, "index-crc:"+FnName(fn), c.Pos(fn.Pos()),
 			"indicator, count, records and padding go through the CRC32 multi-writer; the CRC is taken afterwards and written to the plain sink",
-			fmt.Sprintf("writeIndex: %d writes through the CRC multi-writer (want 4: indicator, count, records, padding), %d plain writes (want 1: the CRC), CRC taken in between=%v", mwWrites, wWrites, okOrder))
+			fmt.Sprintf("writeIndex: on a successful path %d writes go through the CRC multi-writer (want >= 3: indicator, count, padding, plus one per record) and %d to the plain sink (want 1: the CRC), in the order multi-writer* . Sum32 . plain", mwWrites, wWrites))
 		// padding = padLen(n)
 		padLen := c.Func("", "padLen")
 		okPad := false
